@@ -166,12 +166,13 @@ def oracleSigC08Seq (rate : Nat) (txs : List (List Byte)) (spans : List (Nat × 
 
 /-- C05 on a sequence: the reported messages whose text is one of the transmitted payloads form an
     in-order subsequence of the transmissions (nothing twice, nothing out of order) -/
-def oracleSigC05Seq (txs : List (List Byte)) (evs : List SigEv) : Option String :=
+def oracleSigC05Seq (rate : Nat) (txs : List (List Byte)) (evs : List SigEv) : Option String :=
   let outs : List Out := evs.filterMap (fun e => match e with | .msg t m => some ⟨t, m⟩ | _ => none)
   let bursts : List SBurst := evs.filterMap (fun e => match e with
     | .link t 'B' b => some ⟨"b0", b, t, 0⟩
     | _ => none)
-  oracleC05 txs bursts outs
+  -- window and hold converted from symbol ticks to input samples
+  oracleC05With (HIST * rate * 100 / Gen.BAUD_CENTIHZ) (HOLD * rate * 100 / Gen.BAUD_CENTIHZ) txs bursts outs
 
 /-- C05 for a single transmission: at most one StartOfMessage and at most one EndOfMessage -/
 def oracleSigC05One (msgs : List Out) : Option String :=
